@@ -50,6 +50,10 @@ CLAIMED = {
  'C11': dict(engine = 'symx', technique = 'symbolic execution of real listby/unlist/groupby/ungroup/pivot/unpivot (and the sort/cmp they use) with z3 over symbolic key cells; counterexample replay',
              text = 'For every table of <= 3 rows (thorough 4) with symbolic int keys (and mixed None/int/float/str keys), one or two key columns: listby has one row per distinct key listing the key\'s values in row order, unlist restores the table stably sorted by key, groupby sizes add up and ungroup restores the multiset, pivot cells hold exactly the z values of their (x, y) (None where absent, aggregated with len/sum), unpivot + dropping None restores the (x, y, z) rows.',
              note = 'Trusted: z3, CPython, proxies. Payload cells are concrete row ids; pivot labels come from a 3-string pool (they are hashed and become column names) that includes names colliding with parts of column names.'),
+
+ 'C20': dict(engine = 'symx', technique = 'symbolic execution of real perdictable / join / _join_dictable_with_defaults (and dictable.join/xor/sort below them) with z3 over symbolic keys, values and expiry offsets; counterexample replay',
+             text = 'For 2 inputs, each a scalar or a table of <= 2 rows over symbolic distinct int keys (one or two key columns), with or without a default, the solver decides: scalars return f itself; tables give one row per key present in every table input, sorted by key, value = f of that key\'s values, f called exactly once per row; a defaulted input is outer-joined; with cached values and expiries (past / future / None / absent, any key overlap and order) expired cached rows keep their value with no call, all other rows are recomputed exactly once and no stale key appears.',
+             note = 'Trusted: z3, CPython, proxies. Keys within one input are assumed distinct; today is the real clock, expiries are symbolic non-zero day offsets from it (expiry == today is outside the statement and not claimed); dict-output functions, renames and 3-4 table inputs are not explored.'),
 }
 NA = {}
 TODO = 'check not built yet in this session (work in progress); will be decided by symbolic execution of the real code as described in DESIGN.md'
